@@ -155,10 +155,15 @@ def ridge_case(cid, rng, via="fit_numpy"):
     c = {"id": cid, "kind": "ridge", "Z": Z.tolist(), "y": y.tolist(), "err": None, "float_checks": [], "via": via}
     try:
         with time_limit(120), np.errstate(all="ignore"):
-            if via == "fit_numpy":
-                m = rrBLUPModel0.fit_numpy(y.astype(float)[:, None], np.ones((n, 1)), Z.astype(float))
-            elif via == "fit_ndarray":
-                m = rrBLUPModel0.fit(y.astype(float)[:, None], np.ones((n, 1)), Z.astype(float))
+            if via in ("fit_numpy", "fit_ndarray"):
+                # the caller keeps its training arrays and uses them again (a second fit, a score on the training data): fitting
+                # must not modify them
+                Yarr = np.ascontiguousarray(y.astype(float)[:, None]); Zarr = Z.astype(float); Y0 = Yarr.copy(); Z0 = Zarr.copy()
+                fitfn = rrBLUPModel0.fit_numpy if via == "fit_numpy" else rrBLUPModel0.fit
+                m = fitfn(Yarr, np.ones((n, 1)), Zarr)
+                if not (np.array_equal(Yarr, Y0) and np.array_equal(Zarr, Z0)):
+                    c["float_checks"].append("training-arrays-modified-by-fit: the caller's response / genotype array changed during fit")
+                m = fitfn(Yarr, np.ones((n, 1)), Zarr)          # the recorded model is the one fitted to the arrays as they are now
             else:
                 from pybrops.popgen.bvmat.DenseBreedingValueMatrix import DenseBreedingValueMatrix
                 taxa = np.array(["t%d" % k for k in range(n)], dtype=object)
